@@ -1048,6 +1048,8 @@ def _cmp_field(g, e, where, cons):
         if bool(g) != bool(e) or isinstance(e, bool) != isinstance(g, bool):
             return '%s: got %r expected %r' % (where, g, e)
         return None
+    if not isinstance(g, (int, float, Fraction)) or not isinstance(e, (int, float, Fraction)):
+        return None if g == e else '%s: got %r expected %r' % (where, g, e)
     if abs(g - e) > 1e-9 * max(1, abs(e)):
         return '%s: got %r expected %r' % (where, g, e)
     return None
